@@ -2,7 +2,8 @@ SPEC = dict(
     claimed=True,
     title='A configuration that validates can be run',
     props_file='Props/C11.v', props_mod='Props.C11',
-    proof_files=['Proofs/ConfigGraph.v', 'Proofs/Config.v', 'Drv/Config.v'],
+    props_extra=[('Props/C11Link.v', 'Props.C11Link')],
+    proof_files=['Proofs/ConfigGraph.v', 'Proofs/Config.v', 'Proofs/ConfigLinks.v', 'Drv/Config.v'],
     tie_vo=[],
     drivers=[dict(name='config', drv_mod='Drv.Config', drv_file='Drv/Config.v', shard=150,
                   timeout={'quick': 900, 'thorough': 6000})],
@@ -10,10 +11,17 @@ SPEC = dict(
          'configuration.Validate: (a) documented forms only (all sensor/fan/curve kinds, every spelling of controlAlgorithm, both step '
          'spellings, nested function curves in shuffled definition order); (b) one of 52 planted deviations per case (every validator rule, '
          'the four D15 shapes, permission failures), 8x each, then two at once; (c) curve graphs with 2..8 nodes: random DAGs, an embedded '
-         'cycle of every length 1..8, dangling references; (d) EVERY digraph incl. self-loops on 1..3 nodes (thorough: ..4). Accepted '
-         'configurations are instantiated with the real constructors / initializeCurves / initializeFanControllers, every curve is evaluated '
-         'under 8 sensor environments (incl. NaN/Inf averages) and every fan runs calculateTargetPwm, panics recovered, endless recursion '
-         'detected in a child process per target (stack limit 16 MB, 15 s watchdog; generation stops after 12 cases with an endless recursion, each of which is a failing input). Non-trivial = at least one curve and one fan or sensor; distinct = distinct (configuration, observation) terms.',
+         'cycle of every length 1..8, dangling references; (d) EVERY digraph incl. self-loops on 1..3 nodes (thorough: ..4). Ids are strings that are pairwise distinct but fall into groups differing only in letter case, surrounding blanks or unusual '
+         'trailing characters ("c0", "C0", " c0 ", "c0.\u00e4/#"), member lists repeat ids (also consecutively). Every accepted configuration is handed to a '
+         'persistent worker process that loads the same file through the real loader, runs the real Validate on its own CurrentConfig and then - from that '
+         'same in-memory configuration - instantiates with the real constructors / initializeCurves / initializeFanControllers, evaluates every curve under '
+         '8 sensor environments (incl. NaN/Inf averages) and runs calculateTargetPwm for every fan; panics are recovered, a stack overflow (endless recursion) '
+         'or a 15 s stall kills the worker and is attributed to the target it had started (stack limit 16 MB; generation stops after 12 such cases, each of '
+         'which is a failing input). Every 40th case and the corpus (about 50 documents per run) also go through the real command line entry '
+         '`fan2go config validate -c file` (cmd/root.go, cobra, cmd/config/validate.go) in a child process; exit status and the "Config looks good" / '
+         '"Validation failed" line must give the same verdict class. Observation outside C11 (b-startup): a hwmon fan without an RPM input is accepted but its '
+         'controller can never start (RunInitializationSequence saves no PWM data) - C11 promises instantiation and crash-free evaluation, not a working start-up. '
+         'Non-trivial = at least one curve and one fan or sensor; distinct = distinct (configuration, observation) terms.',
     assumptions=['perm_ok: the result of util.CheckFilePermissionsForExecution(config file) is an oracle argument of validate (exercised with modes 0644/0666)',
                  'Tarjan SCC (github.com/looplab/tarjan) is not modelled: the model decides the same criterion by peeling, proved exact (C11_cycle_check_exact, C11_scc_criterion); agreement observed on all digraphs <= 3 (thorough 4) nodes',
                  'sensor environments are values (moving averages, PID outputs); sensor READ failures are C09\'s subject',
